@@ -1,6 +1,6 @@
 """C09: check configuration (PROP) and MANIFEST texts (TEXT)."""
-PROP = {'n_quick': 70,
- 'n_thorough': 700,
+PROP = {'n_quick': 120,
+ 'n_thorough': 600,
  'audit': 3,
  'audit_maxlen': 9000,
  'rule': 'the coinjoin flow of examples/pset_blind_coinjoin.rs generalised: explicit PSETs over the C04 shape lattice (1..5 inputs, 1..3 base assets + issued '
